@@ -204,6 +204,9 @@ class Check(c01.Check):
         if canon.startswith('ERR') and case.get('surely_valid') and len(case['name']) <= 255 and not io.get('skip'):
             return {'what': f'well-formed graph function named with {len(case["name"])} characters did not compile: {canon} {io.get("detail", "")}',
                     'signature': 'c02:valid-rejected:' + canon[4:]}
+        sem0 = io.get('sem')
+        if sem0 and sem0.get('signature') == 'c02:bytes-after-failed-write':
+            return sem0
         if not canon.startswith('OK'):
             return None
         if io.get('out_nonaudio'):
